@@ -234,6 +234,25 @@ Theorem C15_mm_keys_change_bumps_key_version :
     map fst (MultiMap.ents (fst (MultiMap.mstep s o))) = map fst (MultiMap.ents s).
 Proof. exact MultiMapProofs.mm_keys_change_bumps_key_version. Qed.
 Print Assumptions C15_mm_keys_change_bumps_key_version.
+(* Remove(keyIter, valueIndex) with valueIndex >= the key's value count (valueIndex = count is the boundary; index 0 on a key without
+   values) is rejected and nothing changes; MakeIterator(keyIter, valueIndex) allows valueIndex = count and rejects anything larger. *)
+Theorem C15_mm_value_index_out_of_range_rejected :
+  forall s sk idx k vs,
+    MultiMap.kderef s (MultiMap.mhs s sk) = Some (Some (k, vs)) ->
+    ((List.length vs <= idx)%nat -> MultiMap.mstep s (MultiMap.MRemoveKI sk idx) = (s, MultiMap.MRej)) /\
+    ((List.length vs < idx)%nat -> forall slot, MultiMap.kp (MultiMap.mhs s sk) <> MultiMap.KUnk ->
+       MultiMap.mstep s (MultiMap.MMakeIt sk idx slot) = (s, MultiMap.MRej)).
+Proof. exact MultiMapProofs.mm_value_index_out_of_range_rejected. Qed.
+Print Assumptions C15_mm_value_index_out_of_range_rejected.
+Theorem C15_mm_value_index_boundary :
+  forall s sk k vs,
+    MultiMap.kderef s (MultiMap.mhs s sk) = Some (Some (k, vs)) -> MultiMap.kcont s (MultiMap.mhs s sk) true = true -> vs <> [] ->
+    MultiMap.mstep s (MultiMap.MRemoveKI sk (List.length vs)) = (s, MultiMap.MRej) /\
+    snd (MultiMap.mstep s (MultiMap.MRemoveKI sk (List.length vs - 1))) = MultiMap.MAcc None /\
+    MultiMap.vver (fst (MultiMap.mstep s (MultiMap.MRemoveKI sk (List.length vs - 1)))) = S (MultiMap.vver s).
+Proof. exact MultiMapProofs.mm_value_index_boundary. Qed.
+Print Assumptions C15_mm_value_index_boundary.
+
 Theorem C15_mm_versions_monotone :
   forall ops s, (MultiMap.kver s <= MultiMap.kver (MultiMap.mrun s ops))%nat /\ (MultiMap.vver s <= MultiMap.vver (MultiMap.mrun s ops))%nat.
 Proof. exact MultiMapProofs.mm_versions_monotone. Qed.
